@@ -133,49 +133,97 @@ def wrapper_forwarding(chk, repo):
     tuple reaches Array.__getitem__ exactly as xarray's adapter produced it (bounds 0 / None / negative, steps), once, and
     what the array returns is returned"""
     from collections import OrderedDict
-    from ..shapes import Const, Fn, Interp, Obj, ShapeError, TupS, _Raise
+    from ..shapes import Const, Fn, Interp, ListLit, Obj, ShapeError, TupS, _Raise
     xm = repo.module(XR)
     where = f"{xm.relpath}:LazilyIndexedWrapper._raw_indexing_method"
     r = repo.resolve_module_name(xm, "LazilyIndexedWrapper")
     if r.kind != "class":
         raise AnalysisError("anchor vanished: xarray.LazilyIndexedWrapper")
     keys = [(2, slice(0, 5, 1)), (slice(0, 0, 1), slice(None, None, None)), (slice(None, 0, 1), 3), (slice(0, 4, 2), slice(1, None, 3)), (0, 0), (slice(4, None, 1), slice(0, 1, 1)),
-            (slice(None, None, None), slice(None, None, None)), (slice(2, 2, 1), 0), (-1, slice(-3, None, 1))]
-    chk.rule("C02-X6", "the backend wrapper hands the key produced by xarray's adapter to the array unchanged, once, and returns what the array returns", len(keys))
+            (slice(None, None, None), slice(None, None, None)), (slice(2, 2, 1), 0), (-1, slice(-3, None, 1)), (slice(1, 9, 3), slice(None, None, None)), (slice(2, 9, 2), 1),
+            (slice(3, 8, 1), slice(None, None, None)), (slice(1, 8, 5), slice(2, 6, 1)), (8, 6)]
+    chk.rule("C02-X6", "the backend wrapper returns, for the key produced by xarray's adapter, exactly that selection of the array (rows in order, axis dropped for an integer, same columns, same rank) - however many pieces it fetches", len(keys))
+    N, M = 9, 7
+
+    def sel(k, n):
+        return ("int", range(n)[k]) if isinstance(k, int) else ("seq", tuple(range(n)[k]))
     for key in keys:
         I = Interp(repo)
         seen = []
-        marker = Obj("Block", OrderedDict())
+
+        def block(rows, cols):
+            ndim = (rows[0] == "seq") + (cols[0] == "seq")
+            return Obj("Block", OrderedDict(rows=Const(rows), cols=Const(cols), ndim=Const(ndim), shape=Const(tuple(len(x[1]) for x in (rows, cols) if x[0] == "seq"))))
 
         def getitem(I_, a, kw):
-            seen.append(a[0])
-            return marker
+            k0 = a[0]
+            parts = list(k0.elts) if isinstance(k0, TupS) else ([Const(x) for x in k0.v] if isinstance(k0, Const) and isinstance(k0.v, tuple) else None)
+            if parts is None or not all(isinstance(p_, Const) and isinstance(p_.v, (int, slice)) and not isinstance(p_.v, bool) for p_ in parts) or len(parts) != 2:
+                raise ShapeError(f"the array is indexed with {k0!r:.60}")
+            seen.append(tuple(p_.v for p_ in parts))
+            try:
+                return block(sel(parts[0].v, N), sel(parts[1].v, M))
+            except IndexError:
+                raise _Raise("IndexError: index out of bounds", ["IndexError", "LookupError", "Exception", "BaseException", "object"])
+
+        def concatenate(I_, a, kw):
+            seq = a[0]
+            axis = kw.get("axis", a[1] if len(a) > 1 else Const(0))
+            if not (isinstance(axis, Const) and axis.v == 0) or not isinstance(seq, (ListLit, TupS)):
+                raise ShapeError("np.concatenate along another axis / of an unknown sequence")
+            if not seq.elts:
+                raise _Raise("ValueError: need at least one array to concatenate", ["ValueError", "Exception", "BaseException", "object"])
+            rows = []
+            cols = None
+            for x in seq.elts:
+                if not (isinstance(x, Obj) and x.cls == "Block"):
+                    raise ShapeError("np.concatenate of something that is not a block of the array")
+                r_, c_ = x.fields["rows"].v, x.fields["cols"].v
+                if r_[0] != "seq":
+                    raise _Raise("ValueError: zero-dimensional arrays cannot be concatenated", ["ValueError", "Exception", "BaseException", "object"])
+                if cols is not None and c_ != cols:
+                    raise _Raise("ValueError: all the input array dimensions except for the concatenation axis must match", ["ValueError", "Exception", "BaseException", "object"])
+                cols = c_
+                rows.extend(r_[1])
+            return block(("seq", tuple(rows)), cols)
+
+        def at_least_1d(I_, a, kw):
+            x = a[0]
+            if not (isinstance(x, Obj) and x.cls == "Block"):
+                raise ShapeError("np.ascontiguousarray of something that is not a block of the array")
+            if x.fields["ndim"].v == 0:
+                # numpy: ascontiguousarray returns an array of at least one dimension
+                return Obj("Block", OrderedDict(rows=x.fields["rows"], cols=x.fields["cols"], ndim=Const(1), shape=Const((1,))))
+            return x
         lock = Obj("Lock", OrderedDict())
         lock.fields["__enter__"] = Fn("py", impl=lambda I_, a, k: lock, name="__enter__")
         lock.fields["__exit__"] = Fn("py", impl=lambda I_, a, k: Const(None), name="__exit__")
         lock.fields["acquire"] = Fn("py", impl=lambda I_, a, k: Const(True), name="acquire")
         lock.fields["release"] = Fn("py", impl=lambda I_, a, k: Const(None), name="release")
-        arr = Obj("ArrayStub", OrderedDict(__getitem__=Fn("py", impl=getitem, name="__getitem__"), shape=Const((9, 7)), dtype=Const("uint16")))
-        w = Obj("LazilyIndexedWrapper", OrderedDict(array=arr, lock=lock, shape=Const((9, 7)), dtype=Const("uint16")), klass=(r.mod, r.node))
+        arr = Obj("ArrayStub", OrderedDict(__getitem__=Fn("py", impl=getitem, name="__getitem__"), shape=Const((N, M)), dtype=Const("uint16"), chunks=Const((4, M)), records_per_chunk=Const(4), ndim=Const(2)))
+        ident = Fn("py", impl=lambda I_, a, k: a[0], name="np.asarray")
+        I.module_scope(xm).vars["np"] = Obj("numpy", OrderedDict(concatenate=Fn("py", impl=concatenate, name="np.concatenate"), vstack=Fn("py", impl=concatenate, name="np.vstack"),
+                                                                    ascontiguousarray=Fn("py", impl=at_least_1d, name="np.ascontiguousarray"), asarray=ident, asanyarray=ident,
+                                                                    dtype=Fn("py", impl=lambda I_, a, k: a[0] if a else Const(None), name="np.dtype")))
         kshape = TupS([Const(x) for x in key])
         try:
+            # the wrapper as its own __init__ builds it around the array stub
+            w = I.call(I.lookup("LazilyIndexedWrapper", I.module_scope(xm)), [arr, lock], {})
             out = I.call(I.getattr(w, "_raw_indexing_method"), [kshape], {})
-        except (ShapeError, _Raise) as e:
+        except _Raise as e:
+            chk.fail("C02-X6", where, f"xarray hands the backend the key {key!r}: the wrapper raises ({e.what[:80]})", key="wrapper:key-forwarding")
+            continue
+        except (ShapeError, RecursionError) as e:
             raise AnalysisError(f"{where}: cannot be evaluated on the key {key!r}: {str(e)[:120]}")
-        got = None
-        if len(seen) == 1:
-            k0 = seen[0]
-            parts = k0.elts if isinstance(k0, TupS) else (list(k0.v) if isinstance(k0, Const) and isinstance(k0.v, tuple) else None)
-            if parts is not None:
-                got = tuple(p_.v if isinstance(p_, Const) else repr(p_) for p_ in parts) if isinstance(k0, TupS) else tuple(parts)
-        def same(a_, b_, n_):
-            if isinstance(a_, slice) and isinstance(b_, slice):
-                return range(n_)[a_] == range(n_)[b_]  # the same selection of the axis, however the bounds are spelled
-            return type(a_) is type(b_) and a_ == b_
-        ok = got is not None and len(got) == len(key) and all(same(a_, b_, n_) for a_, b_, n_ in zip(got, key, (9, 7))) and out is marker
-        chk.require(ok, "C02-X6", where, f"key {key!r} reaches the array unchanged",
-                    f"xarray hands the backend the key {key!r}; the array is indexed {len(seen)} time(s) with {got!r}" + ("" if out is marker else " and the array's result is not what is returned")
-                    + ": the selection that is loaded is not the selection that was asked for", key="wrapper:key-forwarding", sample={"key": repr(key)})
+        if not (isinstance(out, Obj) and out.cls == "Block"):
+            raise AnalysisError(f"{where}: on the key {key!r} the wrapper returns {out!r:.60}, not a block of the array; not decided")
+        want_rows, want_cols = sel(key[0], N), sel(key[1], M)
+        want_ndim = (want_rows[0] == "seq") + (want_cols[0] == "seq")
+        got_rows, got_cols, got_ndim = out.fields["rows"].v, out.fields["cols"].v, out.fields["ndim"].v
+        ok = got_rows == want_rows and got_cols == want_cols and got_ndim == want_ndim
+        chk.require(ok, "C02-X6", where, f"key {key!r}: the selection asked for is the selection returned",
+                    f"xarray hands the backend the key {key!r}; the array is indexed {len(seen)} time(s) with {seen[:4]!r} and the wrapper returns rows {got_rows[1]!r}, columns {got_cols[1]!r}, "
+                    f"{got_ndim} dimension(s) where rows {want_rows[1]!r}, columns {want_cols[1]!r}, {want_ndim} dimension(s) were asked for", key="wrapper:key-forwarding", sample={"key": repr(key)})
 
 
 def x4(chk, repo):
